@@ -215,12 +215,14 @@ func TestC08_Racy(t *testing.T) {
 		v := rapid.SampledFrom(variants).Draw(t, "variant")
 		failFirst := rapid.IntRange(0, 4).Draw(t, "failFirst") == 0
 		var fault listFault
+		flavour := listErrFlavours[0]
 		if failFirst {
-			fault = rapid.SampledFrom(allListFaults).Draw(t, "fault")
+			fault, flavour = drawListFault(t)
 		}
 		order := rapid.SliceOfN(rapid.SampledFrom(c08Alphabet), 1, 10).Draw(t, "order")
 		w, n := c08Build(t, v, true, rapid.Uint64().Draw(t, "pseed"))
 		defer w.abort()
+		w.api.listErr = flavour
 		counter := 0
 		for _, l := range order {
 			if l == "P" && failFirst {
